@@ -597,6 +597,34 @@ def check_shard_sizes(ctx):
                     break
             if bad:
                 break
+        # tfrec: the first write after a rollover is refused by the converter
+        # (file already open), the next accepted one carries other metadata
+        if bad is None:
+            for eps in (2, 3):
+                n_eval += 1
+                root = tmp / f"tf{eps}"
+                d = C.mk_dataset(root, "tfrec", "", eps=eps)
+                md = {"k": "A"}
+                n_ok = 0
+                with d.filler() as f:
+                    for i in range(3 * eps):
+                        if i == eps:
+                            try:
+                                f.write_example(
+                                    values={"id": 2.5, "v": C.example(i)["v"]},
+                                    split="train", custom_metadata=md)
+                            except Exception:  # noqa: BLE001
+                                pass
+                            md = {"k": "B"}
+                        f.write_example(values=C.example(i), split="train",
+                                        custom_metadata=md)
+                        n_ok += 1
+                sizes = [n for n, _ in _shards_of(root, "train")]
+                if sum(sizes) != n_ok or any(n < 1 or n > eps for n in sizes):
+                    bad = dict(fmt="tfrec", eps=eps, sizes=sizes, total=n_ok,
+                               md="refused first write of a shard, then "
+                                  "other metadata")
+                    break
     return [C.result(
         "every recorded shard has 1..examples_per_shard examples; all but the "
         "last shard of a split are full unless the custom metadata changes",
@@ -824,6 +852,12 @@ def check_bad_writes(ctx):
         "huge-int": lambda i: dict(good(i), id=2 ** 70),
         "object-in-array": lambda i: dict(good(i), a=[[1, None], [2, 3]]),
         "float-for-int": lambda i: dict(good(i), id=2.5),
+        # the same unrepresentable contents handed over as ndarrays of dtype
+        # object (declared shape)
+        "object-ndarray": lambda i: dict(good(i), a=np.array(
+            [[1, None], [2, 3]], dtype=object)),
+        "object-ndarray-bigint": lambda i: dict(good(i), a=np.array(
+            [[2 ** 70, 1], [2, 3]], dtype=object)),
         # foreign containers for the variable-size attribute (fb declares it
         # uint8 there: these are then plain unsafe / wrong-shape values)
         "int-for-bytes": lambda i: dict(good(i), b=7),
@@ -857,7 +891,11 @@ def check_bad_writes(ctx):
                 wa.reshape(-1).astype(np.complex128), equal_nan=True))
         except Exception:  # noqa: BLE001
             return False
-    positions = ["first-of-shard", "middle", "last-of-shard", "twice"]
+    # the rejected write carries the same metadata as its neighbours (so that
+    # it really falls where the name says), except in the "other metadata"
+    # variant, where it also asks for a new shard (F7)
+    positions = ["first-of-shard", "first-of-shard, other metadata", "middle",
+                 "last-of-shard", "twice"]
     fmts = ["fb", "npz", "tfrec"]
     with C.tmpdir() as tmp:
         k = 0
@@ -882,17 +920,21 @@ def check_bad_writes(ctx):
                     d = Dataset.create(root, Metadata(description="bw"), ds)
                     accepted = []
                     rejected = 0
-                    bad_at = {"first-of-shard": [3], "middle": [4],
-                              "last-of-shard": [5], "twice": [1, 2]}[pos]
+                    bad_at = {"first-of-shard": [3],
+                              "first-of-shard, other metadata": [3],
+                              "middle": [4], "last-of-shard": [5],
+                              "twice": [1, 2]}[pos]
                     err = None
                     try:
                         with d.filler() as f:
                             for i in range(8):
                                 if i in bad_at:
                                     try:
-                                        f.write_example(values=bmk(i),
-                                                        split="train",
-                                                        custom_metadata={"m": i})
+                                        f.write_example(
+                                            values=bmk(i), split="train",
+                                            custom_metadata={"m": i} if
+                                            pos.endswith("other metadata")
+                                            else {"m": 0})
                                         accepted.append(("bad", i))
                                     except Exception:  # noqa: BLE001
                                         rejected += 1
@@ -943,7 +985,13 @@ def check_bad_writes(ctx):
                                 # or the reverse): numeric narrowing that a
                                 # format does not police is not covered by
                                 # C18 ("where the format enforces the dtype")
-                                declared_text = an == "b" and fmt != "fb"
+                                # (tfrec polices the kind of a value; npz
+                                # stores whatever numpy makes of the column -
+                                # the int 7 among bytes becomes b"7" - which
+                                # C18 leaves to the format)
+                                if fmt != "tfrec":
+                                    continue
+                                declared_text = an == "b"
                                 given_text = isinstance(
                                     wv, (bytes, bytearray, str)) or (
                                     isinstance(wv, np.ndarray) and
@@ -1036,7 +1084,8 @@ def check_bad_writes(ctx):
         "accepted writes keep the dataset readable", not fails,
         evaluations=n_eval,
         bound=f"3 formats x {len(bads)} kinds of bad value x positions "
-              f"(first / middle / last of a shard, twice)"))
+              f"(first - also asking for a new shard - / middle / last of a "
+              f"shard, twice)"))
     if fails:
         out[-1]["ok"] = True
     return out
